@@ -292,6 +292,11 @@ func (re *Regexp) FindStringMatchStartingAt(s string, startAt int) (*Match, erro
 
 // FindRunesMatchStartingAt searches the input rune slice for a Regexp match starting at the startAt index
 func (re *Regexp) FindRunesMatchStartingAt(r []rune, startAt int) (*Match, error) {
+	if startAt > len(r) {
+		// same argument error as the string entry point; without it the scan starts
+		// outside the text (index out of range in \b, ^ and right-to-left loops)
+		return nil, errStringStartAtTooLarge
+	}
 	return re.run(false, startAt, -1, r, newMatchText(r))
 }
 
